@@ -209,7 +209,7 @@ theorem dm_equals_mixture_any_switch (ns : Bool) (ne np nc : Nat) (det : Bool) (
 
 /-- the hypothesis "existing qubits" cannot be dropped *for the models*: a Pauli error addressed to qubit 5 of a one-qubit
     register is the identity on the tableau (no such column) but `get_one_qubit_gate(1, 5, X)` returns `X` itself.
-    (`CircuitDAG` never produces such an operation.) -/
+    (`CircuitDAG` never produces such an operation, and the real `x_gate` asserts `qubit_position < n_qubits`.) -/
 theorem dm_equals_mixture_needs_existing_qubits :
     (match compileDM true 1 0 0 true [{ kind := .identity, r1 := 5, t1 := .e, n0 := .pauli .X true }],
            compileStab true 1 0 0 true [{ kind := .identity, r1 := 5, t1 := .e, n0 := .pauli .X true }] with
